@@ -565,6 +565,7 @@ func runC12(cfg Config) {
 			}
 		}
 	}
+	c12SharedChunk(cfg, rep, rng)
 	rep.Write(cfg.Out)
 }
 
